@@ -85,4 +85,50 @@ theorem stateAt_time_independent (r : Reader) (b : Nat) (baseAt₁ baseAt₂ : N
           cases h₁; cases h₂
           exact ⟨rfl, rfl, rfl, rfl, rfl⟩
 
+/-! ### ill-formed wire updates -/
+
+/-- the well-shaped raw update of a list of wire transactions -/
+def RawUpdate.ofWire (ws : List WireTx) : RawUpdate :=
+  { txs := ws.map fun w => (w.tx, w.bad), receipts := ws.map fun w => some w.rcpt,
+    diffs := ws.map fun w => some w.diff }
+
+theorem zipRaw_go_wellshaped (pre ws acc : List WireTx) (hgood : ∀ w ∈ ws, w.bad = false) :
+    zipRaw.go (RawUpdate.ofWire (pre ++ ws)) (ws.map fun w => (w.tx, w.bad)) pre.length acc =
+      .ok (acc.reverse ++ ws) := by
+  induction ws generalizing pre acc with
+  | nil => simp [zipRaw.go]
+  | cons w rest ih =>
+    have hw := hgood w (by simp)
+    have hd : (RawUpdate.ofWire (pre ++ w :: rest)).diffs[pre.length]? = some (some w.diff) := by
+      simp [RawUpdate.ofWire]
+    have hr : (RawUpdate.ofWire (pre ++ w :: rest)).receipts[pre.length]? = some (some w.rcpt) := by
+      simp [RawUpdate.ofWire]
+    simp only [List.map_cons, zipRaw.go, hw, Bool.false_eq_true, ↓reduceIte, hd, hr]
+    have := ih (pre ++ [w]) ({ tx := w.tx, bad := false, rcpt := w.rcpt, diff := w.diff } :: acc)
+      (fun x hx => hgood x (by simp [hx]))
+    simp only [List.append_assoc, List.singleton_append, List.length_append, List.length_cons,
+      List.length_nil, Nat.zero_add, List.reverse_cons] at this
+    rw [this]
+    cases w
+    simp_all
+
+/-- a well-shaped update of adaptable transactions never panics and yields its transactions -/
+theorem zipRaw_wellshaped (ws : List WireTx) (hgood : ∀ w ∈ ws, w.bad = false) :
+    zipRaw (RawUpdate.ofWire ws) = .ok ws := by
+  have := zipRaw_go_wellshaped [] ws [] hgood
+  simpa [zipRaw, RawUpdate.ofWire] using this
+
+/-! ### sequencer mode -/
+
+theorem snapshot_cell_stable (cells : List PreConf) (live : Nat) (ws : List WireTx)
+    (hl : live < cells.length) :
+    readCell (runBatchInPlace (seqViewSnapshot cells live).1 live ws) (seqViewSnapshot cells live).2 =
+      readCell cells live := by
+  have hget : cells[live]? = some cells[live] := List.getElem?_eq_getElem hl
+  simp only [seqViewSnapshot, hget, runBatchInPlace, readCell]
+  rw [List.getElem?_append_left hl, hget]
+  simp only
+  rw [List.getElem?_set_ne (by omega)]
+  simp
+
 end Juno.C20
